@@ -213,6 +213,10 @@ def gen_doc(rng, shape=None, max_subnets=5, max_hosts=4, n_public=None,
         if a in sens:
             if rng.random() < 0.3:
                 h["value"] = sens_value[a]
+                if rng.random() < 0.3:
+                    # "must match": the loader accepts a value that is equal
+                    # up to floating-point noise (math.isclose)
+                    h["value"] = float(sens_value[a]) * (1 + 1e-12)
         else:
             r = rng.random()
             if r < 0.5:
